@@ -85,6 +85,9 @@ def check(ctx, rep):
         rep.anchor_lost('W2', 'get_global_default')
     else:
         rep.analysed(g)
+        HM = 'cadence_macros::state::SingletonHolder::'
+        g0 = g
+        g = inl(mac, g, never=lambda x: strip_generics(x.path).startswith(HM))
         T = Terms(g)
         rts = ret_terms(T, [0])
         ok = False
@@ -93,6 +96,7 @@ def check(ctx, rep):
             gct = norm(T.call_term(gets[0]))
             a = peel(gct[2][0])
             is_holder = a[0] == 'static' or (a[0] == 'const' and 'HOLDER' in str(a))
+            holder_id = a
             rc = result_cases(T, gets[0])
             from ..terms import field_of as _fo
             want_ok = ('adt', 'core::result::Result', 'Ok', (('0', _fo(('payload', gct, 'Some'), '0', 0)),))
@@ -101,9 +105,11 @@ def check(ctx, rep):
         rep.ob('W2', 'get_global_default-is-holder-get', ok, g.where(), 'get_global_default() = HOLDER.get().ok_or(GlobalDefaultNotSet)' if ok else 'get_global_default returns %s' % [fmt(x) for x in rts])
         s = mac.bodies.get('cadence_macros::state::set_global_default')
         if s is not None:
+            s = inl(mac, s, never=lambda x: strip_generics(x.path).startswith(HM))
             Ts = Terms(s)
             calls = [norm(Ts.call_term(bi)) for bi, t in s.calls() if not s.blocks[bi]['cleanup']]
-            oks = len(calls) == 1 and term_callee_is(calls[0], 'cadence_macros::state::SingletonHolder::set') and calls[0][2][1] == ('param', 1)
+            oks = len(calls) == 1 and term_callee_is(calls[0], 'cadence_macros::state::SingletonHolder::set') and calls[0][2][1] == ('param', 1) \
+                and len(gets) == 1 and peel(calls[0][2][0]) == holder_id
             rep.ob('W2', 'set_global_default-is-holder-set', oks, s.where(), 'set_global_default(c) = HOLDER.set(c)')
     # the quiet send itself never panics and reports to the handler: C03-R4
     fm = F.FormatterModel(ctx, rep)
